@@ -54,6 +54,20 @@ class UnicodeForPython3(str):
     Python 2 but does not exist in Python 3.
     """
 
+    def __new__(cls, value):
+        # ``value`` is the UTF-8 encoded text as found in the bytecode. The
+        # string itself has to be that text, so that len(), iteration,
+        # hashing and "in" see the characters (str(bytes) would make it the
+        # repr of the bytes, "b'...'").
+        if isinstance(value, bytes):
+            try:
+                text = value.decode("utf-8", "surrogatepass")
+            except UnicodeDecodeError:
+                text = value.decode("latin-1")
+        else:
+            text = value
+        return super().__new__(cls, text)
+
     def __init__(self, value):
         self.value = value
 
@@ -65,7 +79,8 @@ class UnicodeForPython3(str):
         )
 
     def __hash__(self) -> int:
-        return id(self.value)
+        # Equal to the plain str with the same characters, so hash like it.
+        return str.__hash__(self)
 
     def __repr__(self) -> str:
         r"""
